@@ -11,6 +11,44 @@ check("C12", "exploration",
       "go/scanner, strconv and go/types are the definition of a literal's value; longer strings and other characters are outside the bound.",
       "DESIGN.md §3 C12", "E1-range")
 
+check("C11", "exploration",
+      "exhaustive enumeration of complete small numeric domains (all 8/16-bit integers; thorough: all 2^32 float32 bit patterns) and complete structured families for wider types, each judged by go/types constant evaluation",
+      "Every value of the enumerated domains is rendered by the real Lit/LitFunc and the text is evaluated as a constant by go/types; inside the bounds the property is decided, not sampled.",
+      "go/types + go/constant define constant value/type; -0.0 compared with ==; 32/64-bit values outside the structured families are outside the bound (float32 complete in thorough).",
+      "DESIGN.md §3 C11", "E1-range")
+check("C17", "exploration",
+      "exhaustive enumeration of tag maps (all byte strings <=2 for one key; all unit strings; all key pairs/triples around the ':' separator) against reflect.StructTag",
+      "Every map of the enumerated families goes through the real Tag renderer, is parsed back and read with reflect.StructTag.",
+      "reflect.StructTag and go/parser define how a tag reads; other keys / longer values are outside the bound.",
+      "DESIGN.md §3 C17", "E1-range")
+check("C20", "model_checking",
+      "explicit-state BFS over the real Statement API (appends of 1-3 tokens, Clone, clones of clones) with a list model as invariant in every state",
+      "All histories up to the depth bound over a pool of 4 statements are executed on the implementation, de-duplicated on (parent, len, cap, rendering); the list-model invariant is evaluated in every distinct state.",
+      "Both snapshot and live-view semantics of Clone are accepted; histories longer than the bound are outside it. traces_validated = transitions: every transition executes the implementation.",
+      "DESIGN.md §3 C20", "E2")
+IMP = "explicit-state BFS over the real File API in every operation order (dedup on a reflection dump of the File) + choice-point enumeration of canonical pre-render histories per path family; oracle go/parser + go/types with a fabricated importer"
+check("C03", "model_checking", IMP,
+      "Every distinct File state reachable by <= depth raw operations is rendered and type-checked; beyond that depth the canonical forms of pre-render histories are enumerated exhaustively within a deviation bound.",
+      "ImportName is only given true names; the canonical-form reduction rests on the pre-render operations touching disjoint File fields, which the BFS checks on the real code in every order; beyond the bounds nothing is claimed.",
+      "DESIGN.md §3 C03", "E2+E1")
+check("C04", "model_checking", IMP + "; exact import-set oracle",
+      "All reachable File states within the depth bound, and canonical histories over all 14 reference positions (3 of which must render nothing), hint tables, anonymous imports, local path and cgo preambles, are rendered and their import block compared with the exact expected set.",
+      "Expected set = paths of rendered references except the local path + anonymous imports (+ C with a preamble).",
+      "DESIGN.md §3 C04", "E2+E1")
+check("C05", "exploration",
+      "exhaustive enumeration: every keyword / universe name x placement x competitors x order; every path string of length <= 5 (6) over 10 character classes; path families competing for one name; oracle go/token + types.Universe + go/types",
+      "The finite domains named in the property (all keywords, all predeclared identifiers of the installed toolchain) are covered completely; path strings completely up to the length bound over the character classes the guessing code distinguishes.",
+      "Keywords / predeclared names come from go/token and go/types, never from jennifer; longer paths and other characters are outside the bound.",
+      "DESIGN.md §3 C05", "E1")
+check("C06", "model_checking", IMP + "; local/dot oracle",
+      "All reachable File states within the depth bound plus canonical histories for three local-path families via both path constructors, every subset of dot-imported paths, prefix on/off.",
+      "Dot status = last hint before the single render (late hints are C08's subject).",
+      "DESIGN.md §3 C06", "E2+E1")
+check("C19", "model_checking", IMP + "; cgo layout oracle",
+      "All orders of Qual C / Anon C / hints naming C / preamble blocks / prefix up to the depth bound, plus canonical histories over 9 preamble lists and hint kinds.",
+      "Comment text compared line-wise trimmed (gofmt may re-indent).",
+      "DESIGN.md §3 C19", "E2+E1")
+
 NOT_YET = {}
 ids = [json.loads(l)['id'] for l in open('/verif/properties.jsonl')]
 m = {
@@ -24,7 +62,8 @@ m = {
   "add_only": True
  },
  "engines": [
-  {"name": "E1", "path": "internal/explore", "serves_properties": [], "kind_free_text": "stateless deviation-bounded DFS over choice points of generator programs + parallel enumeration of finite domains"},
+  {"name": "E1", "path": "internal/explore", "serves_properties": ["C03","C04","C05","C06","C11","C12","C17","C19"], "kind_free_text": "stateless deviation-bounded DFS over choice points of generator programs + parallel enumeration of finite domains"},
+  {"name": "E2", "path": "internal/statespace", "serves_properties": ["C03","C04","C06","C19","C20"], "kind_free_text": "explicit-state BFS over the real implementation (state = history replayed on fresh objects, canonical key by reflection, invariant in every distinct state)"},
  ],
  "checks": [],
  "not_applicable": [],
